@@ -3021,10 +3021,34 @@ class StateEngine(object):
                 state with updated start until we have finished processing
                 all items in items_path.
                 """
+                start = get_start_index(context, True)
+
+                """
+                Evaluate the ItemSelector for every item of this batch before
+                anything is changed or published: if it fails for one of them
+                the Map state itself fails (subject to its Retry/Catch) and
+                must be handled with the Map state's own input and context,
+                not with those of an iteration that has already been set up.
+                """
+                effective_inputs = []
+                for index, item in enumerate(
+                    items_path[start:min(start + max_concurrency, length)], start=start
+                ):
+                    if item_selector:
+                        # Store the index and value in the context as described below.
+                        context["Map"] = {"Item": {"Index": index, "Value": item}}
+                        try:
+                            effective_inputs.append(
+                                evaluate_payload_template(input, context, item_selector)
+                            )
+                        finally:
+                            del context["Map"]  # Delete after parameters have been processed
+                    else:
+                        effective_inputs.append(item)
+
                 if length and not "Branch" in context_state:
                     context_state["Branch"] = []
 
-                start = get_start_index(context, True)
                 if length:
                     if start == 0:
                         if len(context_state["Branch"]) > 0:
@@ -3089,32 +3113,15 @@ class StateEngine(object):
                     context_state["Name"] = map_state_name
                     context_state["EnteredTime"] = map_state_entered
 
-                    if item_selector:
-                        # Store the index and value in the context as described above.
-                        context["Map"] = {
-                            "Item": {
-                                "Index": index,
-                                "Value": item,
-                            },
-                        }
+                    """
+                    https://states-language.net/spec.html#using-paths
 
-                        """
-                        https://states-language.net/spec.html#using-paths
-
-                        If the “Parameters” field is provided, its value, after
-                        extraction and embedding, becomes the effective input.
-                        """
-                        parameters = evaluate_payload_template(
-                            input, context, item_selector
-                        )
-
-                        del context["Map"]  # Delete after parameters have been processed
-                    else:
-                        """
-                        If no parameters are supplied the effective input to the
-                        iteration is the current item i.e $$.Map.Item.Value
-                        """
-                        parameters = item
+                    If the “Parameters” field is provided, its value, after
+                    extraction and embedding, becomes the effective input,
+                    otherwise the effective input to the iteration is the
+                    current item i.e $$.Map.Item.Value (evaluated above).
+                    """
+                    parameters = effective_inputs[index - start]
 
 
                     event["data"] = parameters
